@@ -327,19 +327,22 @@ class Report:
 
     def closure_elem_kinds(self, cbody, param):
         """closure handed to Iterator::map in its parent: parameter = element of the mapped iterator"""
-        parent = self.P.bodies.get(cbody.parent) if cbody.parent in self.P.bodies else None
-        if parent is None:
-            return None
-        for c in parent.calls:
-            if c.callee.endswith('Iterator::map') and len(c.args) == 2:
-                for o in origins(parent, c.args[1]):
-                    if o.kind == 'agg' and o.extra.get('closure') == cbody.path:
-                        return self.element_kinds(parent, c.args[0])
-                l = op_local(c.args[1])
-                for d in parent.defs.get(l, []) if l is not None else []:
-                    if d[0] == 'stmt' and d[3]['rv']['rv'] == 'agg' and d[3]['rv'].get('closure') == cbody.path:
-                        return self.element_kinds(parent, c.args[0])
-        return None
+        res = None
+        for parent in self.P.creators_of(cbody):
+            got = None
+            for c in parent.calls:
+                if c.callee.endswith('Iterator::map') and len(c.args) == 2 and got is None:
+                    for o in origins(parent, c.args[1]):
+                        if o.kind == 'agg' and o.extra.get('closure') == cbody.path:
+                            got = self.element_kinds(parent, c.args[0])
+                    l = op_local(c.args[1])
+                    for d in parent.defs.get(l, []) if l is not None else []:
+                        if got is None and d[0] == 'stmt' and d[3]['rv']['rv'] == 'agg' and d[3]['rv'].get('closure') == cbody.path:
+                            got = self.element_kinds(parent, c.args[0])
+            if got is None:
+                return None
+            res = got if res is None else (res | got if isinstance(res, set) and isinstance(got, set) else res)
+        return res
 
     def asn1_cast_ok(self, body, vis, want):
         """cast!(ASN1Type::K, seq["key"]) / element of a SequenceOf built in this function: static type of the boxed value"""
